@@ -9,7 +9,7 @@ import (
 func init() {
 	reg("C21", Meta{
 		Technique:   "lockset (guarded-by) analysis of PSlice.peers + copy-on-write discipline rule (no element store / copy into an existing bin array)",
-		Explanation: "C21 (proximity-indexed peer sets), race-freedom clause only: (Lk1) every read of PSlice.peers (the bins array and its bin headers) holds PSlice.mu at least in read mode and every write holds it in write mode, in all methods (helpers index/po inherit the caller's lock: ∩ over their call sites); (W1) the only accesses outside the lock are iterations over a bin header read under the lock, which is race-free because no method stores into, or copies into, an element of an existing bin array — Remove writes only into a fresh make(), Add only appends (beyond every reader's length) or copies into a fresh make(). Not decided: set semantics (exactly-once membership, batch duplicates, iteration order) — value reasoning.",
+		Explanation: "C21 (proximity-indexed peer sets), race-freedom clause only: (Lk1) every read of PSlice.peers (the bins array and its bin headers) holds PSlice.mu at least in read mode and every write holds it in write mode, in all methods (helpers index/po inherit the caller's lock: ∩ over their call sites); (W1) the only accesses outside the lock are iterations over a bin header read under the lock, which is race-free because no method stores into, or copies into, an element of an existing bin array — Remove writes only into a fresh make(), Add only appends (beyond every reader's length) or copies into a fresh make(), and a bin header stored back into the bins array is never a truncating re-slice of an existing bin (which would let the next append overwrite a slot an older snapshot still covers). Not decided: set semantics (exactly-once membership, batch duplicates, iteration order) — value reasoning.",
 		Assumptions: []string{"append writes only at indices >= the old length"},
 	}, c21)
 }
@@ -20,7 +20,7 @@ func c21(r *core.Run) {
 	la := core.NewLockAnalysis(w, "pkg/topology/pslice")
 	la.Run()
 	n := la.CheckGuarded(r, "C21.Lk1", T, "peers", T+".mu", nil)
-	r.Floor("C21.Lk1", "accesses to PSlice.peers", n, 12)
+	r.Floor("C21.Lk1", "accesses to PSlice.peers", n, 6)
 
 	// W1: element stores / copy destinations that alias an existing bin
 	fromPeers := func(v ssa.Value) bool {
